@@ -543,12 +543,52 @@ class AsyncRecorder(Recorder):
         return await self._later(resp)
 
 
-def make_checker(eng, kind, data, shape=None):
+# checker OBJECTS that are false as Python values although they are configured and answer like any other: the recording
+# checker itself derives from an (empty) list / dict / set, defines __len__ returning 0, or __bool__ returning False;
+# "reclist" keeps its lookups in itself (a list that is empty until the first lookup).  The object handed to
+# Guard(relationship_checker=...) is this very object; the answers, the recording and the judgement are those of the
+# ordinary checker of the same kind and shape ("no checker configured" means None, nothing else).
+class _Len0:
+    def __len__(self):
+        return 0
+
+
+class _BoolFalse:
+    def __bool__(self):
+        return False
+
+
+FALSY_OBJS = ["list", "dict", "set", "len0", "boolF", "reclist"]
+_FALSY_BASES = {"list": list, "dict": dict, "set": set, "len0": _Len0, "boolF": _BoolFalse, "reclist": list}
+_FALSY_CLASSES = {}
+
+
+def falsy_class(base, falsy):
+    key = (base, falsy)
+    if key not in _FALSY_CLASSES:
+        ns = {}
+        if falsy == "reclist":
+            def _note(self, subject, relation, resource, context):
+                out = base._note(self, subject, relation, resource, context)
+                list.append(self, (subject, relation, resource))
+                return out
+            ns["_note"] = _note
+        _FALSY_CLASSES[key] = type("%s_%s" % (base.__name__, falsy), (base, _FALSY_BASES[falsy]), ns)
+    return _FALSY_CLASSES[key]
+
+
+def make_checker(eng, kind, data, shape=None, falsy=None):
     if not kind:
         return None
+    cls, args = Recorder, (eng, kind, data, shape)
     if shape is None and kind in ("async", "slow"):
-        return AsyncRecorder(eng, kind, data)
-    return Recorder(eng, kind, data, shape)
+        cls, args = AsyncRecorder, (eng, kind, data)
+    if falsy:
+        rec = falsy_class(cls, falsy)(*args)
+        if falsy != "reclist" and bool(rec):
+            raise RuntimeError("harness: the falsy checker object is not falsy")
+        return rec
+    return cls(*args)
 
 
 def dec_dict(d):
@@ -636,7 +676,7 @@ def _guard(policy, strict, checker):
 
 def run_seq_impl(c):
     cur = {"data": {}}
-    rec = make_checker(0, c.get("checker"), lambda: cur["data"], c.get("shape"))
+    rec = make_checker(0, c.get("checker"), lambda: cur["data"], c.get("shape"), c.get("falsy"))
     g = _guard(c["policy"], c.get("strict"), rec)
     api = c.get("api", "async")
     out = []
@@ -644,8 +684,8 @@ def run_seq_impl(c):
     br = patched_timeout(base_kind(c.get("checker")) == "slow")
 
     def take(k, d):
-        calls = [x for x in rec.calls] if rec else []
-        if rec:
+        calls = [x for x in rec.calls] if rec is not None else []
+        if rec is not None:
             rec.calls = []
         paired = mark_late(calls, br.drain(all_=True))
         out.append({"decision": d, "calls": calls, "bridge_paired": paired})
@@ -684,7 +724,7 @@ def run_seq_impl(c):
 def run_conc_impl(c):
     recs, guards = [], []
     for i, e in enumerate(c["engines"]):
-        rec = make_checker(i, e.get("checker"), e.get("data") or {}, e.get("shape"))
+        rec = make_checker(i, e.get("checker"), e.get("data") or {}, e.get("shape"), e.get("falsy"))
         recs.append(rec)
         guards.append(_guard(e["policy"], e.get("strict"), rec))
     jobs = c["jobs"]
@@ -728,7 +768,7 @@ def run_conc_impl(c):
                 await asyncio.gather(*[asyncio.create_task(job_async(k, j)) for k, j in enumerate(jobs)])
             asyncio.run(go())
     out = []
-    allcalls = [x for r in recs if r for x in r.calls]
+    allcalls = [x for r in recs if r is not None for x in r.calls]
     for k, j in enumerate(jobs):
         calls = [x for x in allcalls if x["dec"] == k]
         out.append({"decision": res[k], "calls": calls, "bridge_paired": mark_late(calls, br.drain(k))})
@@ -740,7 +780,7 @@ def run_nest_impl(c):
     """root evaluations on engine 0..; checkers answer some relations by evaluating a request on another Guard"""
     world = {"records": [], "guards": [], "recs": []}
     for i, e in enumerate(c["engines"]):
-        rec = make_checker(i, e.get("checker"), e.get("data") or {}, e.get("shape"))
+        rec = make_checker(i, e.get("checker"), e.get("data") or {}, e.get("shape"), e.get("falsy"))
         if rec is not None:
             rec.delegates, rec.world = dict(e.get("delegates") or {}), world
         world["recs"].append(rec)
@@ -776,7 +816,7 @@ def run_nest_impl(c):
                     r["decision"] = ["Raise", type(e).__name__]
         else:
             asyncio.run(go())
-    calls = [x for rec in world["recs"] if rec for x in rec.calls]
+    calls = [x for rec in world["recs"] if rec is not None for x in rec.calls]
     for r in world["records"]:
         mark_late([x for x in calls if x["dec"] == r["id"]], br.drain(r["id"]))
     return {"records": world["records"], "calls": calls}
@@ -786,7 +826,7 @@ def run_cond_impl(c):
     """rbacx.core.policy.eval_condition with the three context variables set by hand"""
     from rbacx.core import policy as pol
     from rbacx.core.relctx import EVAL_LOOP, REL_CHECKER, REL_LOCAL_CACHE
-    rec = make_checker(0, c.get("checker"), c.get("data") or {}, c.get("shape"))
+    rec = make_checker(0, c.get("checker"), c.get("data") or {}, c.get("shape"), c.get("falsy"))
     memo = c.get("memo", True)
     cache = {} if memo is True else (None if memo is False else [])
 
@@ -806,7 +846,7 @@ def run_cond_impl(c):
         return await asyncio.to_thread(body)
 
     v = asyncio.run(go())
-    return {"value": v, "calls": rec.calls if rec else []}
+    return {"value": v, "calls": rec.calls if rec is not None else []}
 
 
 def run_hash_impl(c):
@@ -1461,6 +1501,8 @@ def check_one(chk, c, i, m, replay=False):
             v = judge_decision(chk, c, {"step": k}, c["policy"], step["req"], c.get("checker"), r, mm, others, replay)
             verdicts.append(v)
             chk.count("checker:%s" % (c.get("checker") or "absent"))
+            if c.get("falsy") and c.get("checker"):
+                chk.count("falsy-object:%s" % c["falsy"])
             chk.count("calls:%d" % min(len(r["calls"]), 6))
             chk.count("impl:" + ("raise" if not isinstance(r["decision"], dict) else r["decision"]["effect"]))
             for x in r["calls"]:
@@ -1484,6 +1526,8 @@ def check_one(chk, c, i, m, replay=False):
             v = judge_decision(chk, c, {"job": k, "engine": j["engine"]}, e["policy"], j["req"], e.get("checker"), r, mm, others, replay)
             verdicts.append(v)
             chk.count("conc:%s" % c.get("mode", "gather"))
+            if e.get("falsy") and e.get("checker"):
+                chk.count("falsy-object:%s" % e["falsy"])
             if v in ("violation", "corr"):
                 break
     elif kind == "nest":
@@ -1515,6 +1559,8 @@ def check_one(chk, c, i, m, replay=False):
                                e["policy"], r["req"], e.get("checker"), {"decision": r["decision"], "calls": per[r["id"]]}, mm, others, replay)
             verdicts.append(v)
             chk.count("nest:%s:%s" % ("root" if r.get("root") else "inner", e.get("checker") or "absent"))
+            if e.get("falsy") and e.get("checker"):
+                chk.count("falsy-object:%s" % e["falsy"])
             for x in per[r["id"]]:
                 chk.count("resp:" + x["resp"][0] + "/" + x["how"])
             if v in ("violation", "corr"):
@@ -1543,6 +1589,8 @@ def check_one(chk, c, i, m, replay=False):
                            theorems=["c13_exact_triple_holds", "c13_memo_off_same"])
             return ["corr"]
         chk.count("cond:memo=%s" % c.get("memo", True))
+        if c.get("falsy") and c.get("checker"):
+            chk.count("falsy-object:%s" % c["falsy"])
         verdicts.append("ok")
     else:
         eq_m = m[0] == m[1]
@@ -1720,6 +1768,8 @@ def _check_cases(chk, cases, replay=False, search=True):
         def reshaped(c, shape):
             t = copy.deepcopy(c)
             t["checker"], t["shape"], t["twin"] = base_kind(c["checker"]), shape, True
+            if shape == "plain":
+                t.pop("falsy", None)     # the reference side: the ordinary plain checker object
             return t
 
         def async_shape(c):
@@ -1735,13 +1785,16 @@ def _check_cases(chk, cases, replay=False, search=True):
             da = [(norm_dec(r["decision"]), [x["q"] for x in r["calls"]]) for r in a["decisions"]]
             ds = [(norm_dec(r["decision"]), [x["q"] for x in r["calls"]]) for r in s["decisions"]]
             chk.count("twin:" + c["shape"])
+            if c.get("falsy"):
+                chk.count("twin:falsy-object:" + c["falsy"])
             if any(x.get("late") for i2 in (a, s) for r in i2["decisions"] for x in r["calls"]):
                 chk.count("twin:late-under-load-skipped")      # the engine legitimately saw a time-out there
                 continue
             if da != ds:
                 nv = len(chk.violations)
+                what = c["shape"] + (", the checker object being false as a Python value: %s" % c["falsy"] if c.get("falsy") else "")
                 chk.violation("a synchronous and an asynchronous checker (%s) with the same relationship data give different "
-                              "decisions or lookups (c13_sync_async_same)" % c["shape"], c, impl={"sync": ds, "async": da})
+                              "decisions or lookups (c13_sync_async_same)" % what, c, impl={"sync": ds, "async": da})
                 if not replay and timing_involved(c, a):
                     suspects.append((c, chk.violations[nv:], []))
                     del chk.violations[nv:]
@@ -1754,6 +1807,7 @@ def _check_cases(chk, cases, replay=False, search=True):
             for e in t["engines"]:
                 if e.get("checker"):
                     e["checker"], e["shape"] = base_kind(e["checker"]), "plain"
+                    e.pop("falsy", None)
             return t
 
         def flat(i):
@@ -1831,7 +1885,7 @@ def ctx_with_rebac(rb, extra=None):
     return c
 
 
-def seq_case(fam, policy, reqs, checker, datas=None, strict=False, api="async", twin=False, shape=None):
+def seq_case(fam, policy, reqs, checker, datas=None, strict=False, api="async", twin=False, shape=None, falsy=None):
     datas = datas or [{"salt": 0}]
     steps = [{"req": r, "data": datas[k % len(datas)]} for k, r in enumerate(reqs)]
     c = {"fam": fam, "kind": "seq", "policy": policy, "strict": strict, "api": api, "checker": checker, "steps": steps}
@@ -1839,7 +1893,16 @@ def seq_case(fam, policy, reqs, checker, datas=None, strict=False, api="async", 
         c["twin"] = True
     if shape:
         c["shape"] = shape
+    if falsy and checker:
+        c["falsy"] = falsy
     return c
+
+
+def falsy_by_hash(obj, one_in):
+    """a falsy checker object for one case in `one_in`, chosen by the case's own text (no draw from the seeded stream:
+    the random families stay what they were)"""
+    h = int(hashlib.sha256(json.dumps(lib.jsonable(obj), sort_keys=True, default=str).encode()).hexdigest()[:12], 16)
+    return FALSY_OBJS[(h // one_in) % len(FALSY_OBJS)] if h % one_in == 0 else None
 
 
 OPCTX = {
@@ -1939,6 +2002,38 @@ def enumerated(chk):
         for name in ("bare", "not_a"):
             out.append(seq_case("shape:" + shape, single(OPCTX[name](copy.deepcopy(a), copy.deepcopy(b))), [mkreq()], "sync",
                                 [{"mode": mode}], twin=(shape != "plain"), shape=shape))
+    # 10. the checker OBJECT is false as a Python value (empty list / dict / set subclass, __len__ == 0, __bool__ False,
+    #     a list of its own lookups) x plain / class-level async def / the other asynchronous shapes x answer kind x
+    #     operator context: a configured checker is consulted all the same (same decisions and lookups as the ordinary one)
+    fshapes = [("sync", "plain"), ("async", None)] + [("sync", x) for x in ASYNC_SHAPES + ["mixed"]]
+    fkinds = ["sync", "values"] if quick else ["sync", "values", "flaky", "raising", "badbool"]
+    n = 0
+    for falsy, (k0, shape), name, salt in itertools.product(FALSY_OBJS, fshapes, ["bare", "not_a", "or_ab", "and_ab", "nested", "thrice"],
+                                                            range(1 if quick else 4)):
+        n += 1
+        if quick and shape not in ("plain", None) and (n + chk.seed) % 5:
+            continue                                    # quick: plain and async def always, a rotating fifth of the rest
+        kind = k0 if k0 == "async" else fkinds[n % len(fkinds)]
+        pol = single(OPCTX[name](copy.deepcopy(a), copy.deepcopy(b)), algo=["permit-overrides", "deny-overrides", "first-applicable"][n % 3])
+        api = ["async", "sync", "sync_in_loop"][n % 3]
+        out.append(seq_case("falsy:" + falsy, pol, [mkreq(ctx={"_rebac": {"ip": "10.0.0.1"}}), mkreq(sid="u2"), mkreq()], kind,
+                            [{"salt": salt}, {"salt": salt, "neg": True}, {"mode": "all"}], api=api,
+                            twin=(kind != "async" and n % (4 if quick else 2) == 0), shape=shape, falsy=falsy))
+    for falsy, mode, name in itertools.product(FALSY_OBJS, ["all", "none"], ["bare", "not_a"]):
+        out.append(seq_case("falsy:" + falsy, single(OPCTX[name](copy.deepcopy(a), copy.deepcopy(b))), [mkreq(), mkreq()], "sync",
+                            [{"mode": mode}, {"mode": "none" if mode == "all" else "all"}], twin=(name == "bare" or not quick),
+                            shape="plain", falsy=falsy))
+    #     ... and in rule lists / nested sets, with the relationship data changed between decisions
+    for k, falsy in enumerate(FALSY_OBJS):
+        algo = ["deny-overrides", "permit-overrides", "first-applicable"][k % 3]
+        rules = [rule("r1", {"and": [a, b]}, "deny"), rule("r2", {"or": [b, a]}, "permit"), rule("r3", {"not": a}, "permit"),
+                 rule("r4", a, "deny", actions=["write"])]
+        ps = {"id": "s", "algorithm": algo, "policies": [{"id": "c1", "algorithm": "permit-overrides", "rules": copy.deepcopy(rules[:2])},
+                                                         {"id": "c2", "algorithm": "deny-overrides", "rules": copy.deepcopy(rules[1:])}]}
+        for pol in ({"id": "p", "algorithm": algo, "rules": copy.deepcopy(rules)}, ps):
+            out.append(seq_case("falsy:" + falsy, pol, [mkreq(), mkreq(action="write"), mkreq(), mkreq()], ["sync", "async"][k % 2],
+                                [{"salt": k}, {"mode": "all"}, {"mode": "none"}, {"salt": k, "neg": True}],
+                                api=["async", "sync", "sync_in_loop"][k % 3], twin=(k % 2 == 0), falsy=falsy))
     return out
 
 
@@ -2009,6 +2104,9 @@ def random_cases(chk, n):
         out.append(seq_case("random", pol, reqs, rng.choice(KINDS + ["sync", "async"]), datas, strict=rng.random() < 0.2,
                             api=rng.choice(["async", "async", "async", "sync", "sync_in_loop"]), twin=rng.random() < 0.3,
                             shape=rng.choice([None, None] + SHAPES + ["mixed"])))
+        f = falsy_by_hash(out[-1], 6)
+        if f and out[-1]["checker"]:
+            out[-1]["falsy"] = f
     return out
 
 
@@ -2027,6 +2125,9 @@ def conc_cases(chk, n):
             sh = rng.choice([None] + SHAPES + ["mixed"])
             if sh and e["checker"]:
                 e["shape"] = sh
+            f = falsy_by_hash([k, e], 6)
+            if f and e["checker"]:
+                e["falsy"] = f
         reqs = [rand_req(rng) for _ in range(rng.choice([2, 3]))]
         jobs = []
         for j in range(rng.choice([6, 10, 16])):
@@ -2110,6 +2211,7 @@ def nest_cases(chk):
 
 def cond_cases(chk):
     out = []
+    quick = chk.tier == "quick"
     a, b = node("viewer", short=True), node("editor", subject="group:g1", ctx={"ip": "1.2.3.4"})
     env = spec_env(mkreq(ctx={"_rebac": {"ip": "10.0.0.1"}}))
     for (name, f), memo, kind, salt in itertools.product(OPCTX.items(), [True, False, "nondict"], ["sync", "async", None, "raising", "values"], range(2)):
@@ -2118,6 +2220,12 @@ def cond_cases(chk):
     for shape, kind, name in itertools.product(SHAPES + ["mixed"], ["sync", "flaky", "values"], ["not_a", "or_ab", "nested"]):
         out.append({"fam": "cond:shape", "kind": "cond", "cond": OPCTX[name](copy.deepcopy(a), copy.deepcopy(b)), "env": env,
                     "checker": kind, "shape": shape, "data": {"salt": 3}, "memo": True})
+    for falsy, (kind, shape), name, memo in itertools.product(FALSY_OBJS, [("sync", "plain"), ("async", None), ("values", "coro")],
+                                                              ["bare", "not_a", "nested"], [True] if quick else [True, False]):
+        out.append({"fam": "cond:falsy", "kind": "cond", "cond": OPCTX[name](copy.deepcopy(a), copy.deepcopy(b)), "env": env,
+                    "checker": kind, "data": {"salt": 3}, "memo": memo, "falsy": falsy})
+        if shape:
+            out[-1]["shape"] = shape
     return out
 
 
